@@ -6,11 +6,14 @@ package c05
 
 import (
 	"fmt"
+	"sort"
 	"strings"
 	"time"
 
 	"k8s.io/apimachinery/pkg/apis/meta/v1/unstructured"
 	"k8s.io/cli-runtime/pkg/resource"
+
+	"github.com/np-guard/netpol-analyzer/pkg/netpol/connlist"
 
 	"verif/checks/c01"
 	"verif/checks/c02"
@@ -296,6 +299,123 @@ func Run(r *fw.Run) {
 			x.Fail("not well-formed: a workload is returned as more or less than one peer", "", fmt.Sprintf("%s: %d peers named ns1/w1[ReplicaSet]", cs.desc, n))
 		}
 		x.Nontrivial(cs.desc)
+	})
+
+	// pods of one owner that agree in labels but not in container ports (an operator's primary with a metrics port next to
+	// its replicas) are still one workload: one peer, one entry per ordered pair
+	fw.Explore(r, "S-owner-pods-with-different-ports", fw.Full, func(c *fw.Ctx) dupCase {
+		ports := [][]wm.CPort{nil, {{Name: "http", Num: 80}}, {{Name: "http", Num: 80}, {Name: "metrics", Num: 9090}}, {{Name: "http", Num: 8080}}, {{Name: "dns", Num: 53, Proto: "UDP"}}}
+		a := c.Choose(len(ports), "ports of the first pod")
+		b := c.Choose(len(ports), "ports of the second pod")
+		third := c.Choose(2, "a third pod like the first")
+		order := c.Choose(2, "document order")
+		pol := c.Choose(4, "policy: none | ingress on http | ingress on 80-9090 from app=b | deny all + egress to 10.0.0.0/8")
+		exp := c.Choose(2, "exposure") == 1
+		lbl := map[string]string{"app": "a"}
+		pods := []*resource.Info{wm.InfoPodIPs("ns1", "w1-aaa", "w1", lbl, ports[a], wm.PodHostIP(0), wm.PodIP(0)), wm.InfoPodIPs("ns1", "w1-bbb", "w1", lbl, ports[b], wm.PodHostIP(1), wm.PodIP(1))}
+		if third == 1 {
+			pods = append(pods, wm.InfoPodIPs("ns1", "w1-ccc", "w1", lbl, ports[a], wm.PodHostIP(2), wm.PodIP(2)))
+		}
+		if order == 1 {
+			for i, j := 0, len(pods)-1; i < j; i, j = i+1, j-1 {
+				pods[i], pods[j] = pods[j], pods[i]
+			}
+		}
+		other := &wm.World{NSs: []wm.NS{{Name: "ns1", Labels: map[string]string{"team": "a"}, HasObj: true}},
+			WLs: []wm.Workload{{Kind: "Deployment", NS: "ns1", Name: "w2", Labels: map[string]string{"app": "b"}, Replicas: 1}}}
+		switch pol {
+		case 1:
+			other.NPs = []wm.NP{{NS: "ns1", Name: "p", PodSel: *wm.ML("app", "a"), Types: []string{"Ingress"}, Ingress: []wm.NPRule{{Ports: []wm.NPPort{{HasPort: true, Name: "http"}}}}}}
+		case 2:
+			other.NPs = []wm.NP{{NS: "ns1", Name: "p", PodSel: *wm.ML("app", "a"), Types: []string{"Ingress"}, Ingress: []wm.NPRule{{Peers: []wm.NPPeer{{Pod: wm.ML("app", "b")}}, Ports: []wm.NPPort{{HasPort: true, Num: 80, End: 9090}}}}}}
+		case 3:
+			other.NPs = []wm.NP{{NS: "ns1", Name: "p", PodSel: wm.Sel{}, Types: []string{"Ingress", "Egress"}, Egress: []wm.NPRule{{Peers: []wm.NPPeer{{CIDR: "10.0.0.0/8"}}}}}}
+		}
+		return dupCase{append(other.Infos(), pods...), fmt.Sprintf("pods of ReplicaSet ns1/w1 with ports %v / %v (third pod %d), order %d, policy %d", ports[a], ports[b], third, order, pol), exp}
+	}, func(cs dupCase, x *fw.Rec) {
+		tr, _ := wm.RunList(cs.infos, cs.exp)
+		x.Outcome(tr.OutcomeKey())
+		x.Describe(func() any {
+			return map[string]any{"case": cs.desc, "exposure": cs.exp, "manifests": wm.InfoYAML(cs.infos)}
+		})
+		if tr.Err != nil {
+			x.Count("analysis_errors (not this property)", 1)
+			return
+		}
+		for _, b := range tr.WF {
+			x.Fail(Class(b), "", cs.desc+"\n"+strings.Join(tr.WF, "\n"))
+		}
+		n := 0
+		for _, p := range tr.RawPeers {
+			if p.String() == "ns1/w1[ReplicaSet]" {
+				n++
+			}
+		}
+		if n != 1 {
+			x.Fail("not well-formed: a workload is returned as more or less than one peer", "", fmt.Sprintf("%s: %d peers named ns1/w1[ReplicaSet]", cs.desc, n))
+		}
+		x.Nontrivial(cs.desc)
+	})
+
+	// the focused report is a report too: a focus name shared by workloads of two namespaces (and of two kinds) must not
+	// list the entries between the matching workloads twice
+	type focusCase struct {
+		w     *wm.World
+		focus string
+		exp   bool
+	}
+	fw.Explore(r, "S-focus-on-shared-names", fw.Full, func(c *fw.Ctx) focusCase {
+		twins := c.Choose(3, "workloads named web: two namespaces | two namespaces + a StatefulSet of the same name given as a Pod | one")
+		pol := c.Choose(4, "policy: none | web accepts only web | web accepts 80-81 from ns2 | deny all egress of ns1 except 10.0.0.0/8")
+		focus := fw.Pick(c, []string{"web", "ns1/web", "ns2/web", "other", "ns1/other", "nosuch"}, "focus")
+		exp := c.Choose(2, "exposure") == 1
+		w := &wm.World{NSs: []wm.NS{{Name: "ns1", Labels: map[string]string{"team": "a"}, HasObj: true}, {Name: "ns2", Labels: map[string]string{"team": "b"}, HasObj: true}},
+			WLs: []wm.Workload{{Kind: "Deployment", NS: "ns1", Name: "web", Labels: map[string]string{"app": "web"}, Replicas: 1, Ports: []wm.CPort{{Name: "http", Num: 80}}},
+				{Kind: "Deployment", NS: "ns1", Name: "other", Labels: map[string]string{"app": "b"}, Replicas: 1}}}
+		if twins <= 1 {
+			w.WLs = append(w.WLs, wm.Workload{Kind: "Deployment", NS: "ns2", Name: "web", Labels: map[string]string{"app": "web"}, Replicas: 2, Ports: []wm.CPort{{Name: "http", Num: 8080}}})
+		}
+		if twins == 1 {
+			w.WLs = append(w.WLs, wm.Workload{Kind: "Pod", NS: "ns2", Name: "web-0", Owner: "web", Labels: map[string]string{"app": "web", "set": "yes"}})
+		}
+		switch pol {
+		case 1:
+			for _, ns := range []string{"ns1", "ns2"} {
+				w.NPs = append(w.NPs, wm.NP{NS: ns, Name: "p", PodSel: *wm.ML("app", "web"), Types: []string{"Ingress"}, Ingress: []wm.NPRule{{Peers: []wm.NPPeer{{Pod: wm.ML("app", "web"), NSSel: &wm.Sel{}}}}}})
+			}
+		case 2:
+			w.NPs = append(w.NPs, wm.NP{NS: "ns1", Name: "p", PodSel: *wm.ML("app", "web"), Types: []string{"Ingress"}, Ingress: []wm.NPRule{{Peers: []wm.NPPeer{{NSSel: wm.ML("team", "b")}}, Ports: []wm.NPPort{{HasPort: true, Num: 80, End: 81}}}}})
+		case 3:
+			w.NPs = append(w.NPs, wm.NP{NS: "ns1", Name: "p", PodSel: wm.Sel{}, Types: []string{"Egress"}, Egress: []wm.NPRule{{Peers: []wm.NPPeer{{CIDR: "10.0.0.0/8"}}}}})
+		}
+		return focusCase{w, focus, exp}
+	}, func(cs focusCase, x *fw.Rec) {
+		opts := []connlist.ConnlistAnalyzerOption{connlist.WithLogger(wm.Quiet()), connlist.WithFocusWorkload(cs.focus)}
+		if cs.exp {
+			opts = append(opts, connlist.WithExposureAnalysis())
+		}
+		ca := connlist.NewConnlistAnalyzer(opts...)
+		conns, peers, err := ca.ConnlistFromResourceInfos(cs.w.Infos())
+		x.Describe(func() any {
+			return map[string]any{"world": cs.w.Brief(), "focus": cs.focus, "exposure": cs.exp, "manifests": cs.w.YAMLDocs()}
+		})
+		if err != nil {
+			x.Count("analysis_errors (not this property)", 1)
+			return
+		}
+		var lines []string
+		for _, cn := range conns {
+			lines = append(lines, cn.Src().String()+"=>"+cn.Dst().String())
+		}
+		sort.Strings(lines)
+		x.Outcome(cs.focus + "|" + strings.Join(lines, ";"))
+		if len(conns) > 0 {
+			x.Nontrivial(cs.focus + "|" + strings.Join(cs.w.Brief(), ";"))
+		}
+		wf := wm.WellFormed(conns, peers)
+		for _, b := range wf {
+			x.Fail(Class(b)+" (focused report)", "", fmt.Sprintf("focus %q\n%s", cs.focus, strings.Join(wf, "\n")))
+		}
 	})
 
 	// the world scopes of C01 (with and without exposure) and C02
